@@ -101,8 +101,12 @@ package tags
 // ---- the render loop: visits Index(0..l) in order, binds forloop, restores (C11, C12)
 
 //@ func (tags.loopRenderer).render
-//@ props C11 C12 C01
-//@ requires args: iter != nil && ctx != nil
+//@ props C11 C12 C20 C01
+//@ requires args: iter != nil && ctx != nil && w != nil
+//@ ghost wfailed Bool = false
+//@ at call before #1: wfailed = result != nil
+//@ at call after #1: wfailed = result != nil
+//@ ensures writeError: wfailed ==> result != nil
 //@ ghost n Int = 0
 //@ ghost brk Bool = false
 //@ ghost decoratorFailed Bool = false
@@ -115,12 +119,12 @@ package tags
 //@ at call RenderChildren #1: n = n + 1
 //@ at call RenderChildren #1: brk = result != nil && result.Cause() == errLoopBreak
 //@ at call RenderChildren #1: failed = result != nil && result.Cause() != errLoopBreak && result.Cause() != errLoopContinueLoop
-//@ at call Set #1 assert innermost: !brk && !failed
+//@ at call Set #1 assert innermost: !brk && !failed && !wfailed
 //@ loop 1 invariant count: n == i && 0 <= i && i <= l && l == iter.Len()
-//@ loop 1 invariant running: !brk && !failed
-//@ ensures complete: result == nil && !brk && !decoratorFailed ==> n == iter.Len()
+//@ loop 1 invariant running: !brk && !failed && !wfailed
+//@ ensures complete: result == nil && !brk && !decoratorFailed && !wfailed ==> n == iter.Len()
 //@ ensures childError: failed ==> result != nil
-//@ ensures breakIsNotAnError: !failed && !decoratorFailed ==> result == nil
+//@ ensures breakIsNotAnError: !failed && !decoratorFailed && !wfailed ==> result == nil
 //@ loop 1 decreases l - i
 //@ ensures restoreVar: mapget(ctx.Bindings(), loop.Variable) == old(mapget(ctx.Bindings(), loop.Variable))
 //@ ensures restoreLoop: mapget(ctx.Bindings(), "forloop") == old(mapget(ctx.Bindings(), "forloop"))
